@@ -141,6 +141,10 @@ def ancestors(n: ast.AST) -> Iterator[ast.AST]:
 
 def norm_text(n: ast.AST) -> str:
     """Normalised statement text used to key findings (never line numbers)."""
+    if isinstance(n, (ast.FunctionDef, ast.AsyncFunctionDef)):
+        return f"def {n.name}({', '.join(a.arg for a in n.args.posonlyargs + n.args.args)})"
+    if isinstance(n, ast.ClassDef):
+        return f"class {n.name}"
     try:
         s = ast.unparse(n)
     except Exception:  # pragma: no cover
